@@ -200,3 +200,51 @@ Theorem run_spec_ok_sound :
     excluded_at (r_step r) (r_ctx r) (m_idx m) = false.
 Proof. exact Proofs.C12.run_spec_ok_sound. Qed.
 Print Assumptions run_spec_ok_sound.
+
+(* ---- admission AFTER the production result pipeline, on ONE group object ----
+   [apply_marks size marks] is the group after NewGroup and the MarkMemberAsInactive /
+   MarkMemberAsDisqualified calls in the given order; [pipe_run g steps] threads the group through
+   the result-preparation steps that only read it (conversion to the misbehaved list, the operating
+   view, result signing). *)
+
+(* the group is immutable under read-only steps: whatever the steps, the group that comes out is
+   the group that went in ... *)
+Theorem pipeline_leaves_group_unchanged : forall steps g, fst (pipe_run g steps) = g.
+Proof. exact Proofs.C12.pipe_run_group. Qed.
+Print Assumptions pipeline_leaves_group_unchanged.
+
+(* ... and what each step returns is a function of that group alone (history = map) *)
+Theorem pipeline_outputs_are_map :
+  forall steps g, snd (pipe_run g steps) = map (fun s => snd (pstep_run s g)) steps.
+Proof. exact Proofs.C12.pipe_run_outputs. Qed.
+Print Assumptions pipeline_outputs_are_map.
+
+(* every member named by a mark is excluded in the resulting group (it was marked, or it was not
+   operating already: not a member index, or marked before) *)
+Theorem marked_member_excluded : forall size marks d i,
+  In (d, i) marks -> is_operating (apply_marks size marks) i = false.
+Proof. exact Proofs.C12.marked_member_excluded. Qed.
+Print Assumptions marked_member_excluded.
+
+(* a message claiming the index of a member excluded by a mark is not acted on by any
+   shouldAcceptMessage step whose group went through any read-only pipeline after the marks *)
+Theorem pipe_excluded_never_admitted : forall (addr_of : N -> N) s x m size marks steps,
+  match kind_of s with KPlain | KKeyed => True | _ => False end ->
+  x_grp x = fst (pipe_run (apply_marks size marks) steps) ->
+  In (m_idx m) (map snd marks) ->
+  acted (admission addr_of s x m) = false.
+Proof. exact Proofs.C12.pipe_excluded_never_admitted. Qed.
+Print Assumptions pipe_excluded_never_admitted.
+
+(* soundness of the executable pipeline spec, evaluated on the implementation's outcomes with the
+   group AS MARKED: whatever the state acted on came from a member the marks did not exclude, under
+   a key that holds the claimed index, and not from the receiver itself *)
+Theorem pipe_spec_ok_sound : forall q,
+  pipe_well_formed q = true -> pipe_spec_ok q = true ->
+  forall m o sn, In (m, o, sn) (q_msgs q) -> acted o = true ->
+  holds_index (q_ops q) (m_idx m) (tab_addr (q_tab q) (m_key m)) /\
+  m_idx m <> q_self q /\
+  is_operating (pipe_grp q) (m_idx m) = true /\
+  ~ In (m_idx m) (map snd (q_marks q)).
+Proof. exact Proofs.C12.pipe_spec_ok_sound. Qed.
+Print Assumptions pipe_spec_ok_sound.
